@@ -363,9 +363,9 @@ def applyFlags : List Area → List (Bool × Bool) → List Area
   | as, _ => as
 
 def startup (s : St) (stType : Nat) : St × Obs :=
-  if !s.postInit then (s, { rc := TPM_INVALID_POSTINIT }) else
-  -- whatever happens next: the saved state is deleted and postInitialise becomes FALSE
+  -- whatever happens: the saved state is deleted and postInitialise becomes FALSE
   let done (s : St) : St := { s with postInit := false, saved := none, stateSaved := false }
+  if !s.postInit then (done s, { rc := TPM_INVALID_POSTINIT }) else
   if s.failed then (done s, { rc := TPM_FAILEDSELFTEST })
   else if stType = TPM_ST_CLEAR then (done { s with mem := clearStFlags s.mem }, { rc := 0 })
   else if stType = TPM_ST_STATE then
@@ -426,8 +426,10 @@ def step (s : St) : Op → St × Obs
   | .saveState => saveState (invalidateSaved s)
   | .getPub idx =>
       let s := invalidateSaved s
-      -- TPM_GetCapability checks postInitialise only (it is allowed in the failed state)
+      -- TPM_GetCapability: postInitialise is checked first, then the failed state (this capability is not one of
+      -- those a failed TPM still reports)
       if s.postInit then (s, { rc := TPM_INVALID_POSTINIT }) else
+      if s.failed then (s, { rc := TPM_FAILEDSELFTEST }) else
       match lookup s.mem idx with
       | none => (s, { rc := TPM_BADINDEX })
       | some a => (s, { rc := 0, out := be32 (pubBytes a).length ++ pubBytes a })
